@@ -178,7 +178,7 @@ func c10r2(c *an.Ctx) {
 			return
 		}
 		// dynamic call through the receiver field
-		if p := an.PathOf(call.Common().Value); p.Last() != nil && p.Last().Name() == "receiver" {
+		if p := an.PathOf(call.Common().Value); p.Last() != nil && nameOf(p.Last()) == "receiver" {
 			for _, r := range *call.Referrers() {
 				if ex, isEx := r.(*ssa.Extract); isEx && ex.Index == 1 {
 					recvErr = ex
@@ -309,7 +309,7 @@ func c10r3(c *an.Ctx) {
 		f := c.Fn("drpcerr", m.name)
 		ok := false
 		for _, ret := range an.Returns(f) {
-			if p := an.PathOf(ret.Results[0]); p.Last() != nil && p.Last().Name() == m.field {
+			if p := an.PathOf(ret.Results[0]); p.Last() != nil && nameOf(p.Last()) == m.field {
 				ok = true
 			}
 		}
@@ -319,7 +319,7 @@ func c10r3(c *an.Ctx) {
 	okE := false
 	for _, ret := range an.Returns(ef) {
 		if call, ok := ret.Results[0].(*ssa.Call); ok && call.Common().IsInvoke() && call.Common().Method.Name() == "Error" {
-			if p := an.PathOf(call.Common().Value); p.Last() != nil && p.Last().Name() == "err" {
+			if p := an.PathOf(call.Common().Value); p.Last() != nil && nameOf(p.Last()) == "err" {
 				okE = true
 			}
 		}
